@@ -79,6 +79,7 @@ def jresp : Resp → Json
   | .err500 => Json.mkObj [("status", 500)]
   | .served => Json.mkObj [("status", 200), ("served", true)]
   | .err401 => Json.mkObj [("status", 401)]
+  | .listed n => Json.mkObj [("status", 200), ("listed", n)]
 
 def jpairings (ps : Pairings) : Json :=
   Json.arr (ps.map fun e => Json.arr #[jhex e.uuid, jhex e.key, Json.bool e.admin]).toArray
@@ -89,11 +90,13 @@ def parseOp (j : Json) : R Op := do
   | "unpair" => pure (.unpair (← getHex j "uuid"))
   | "verify" => pure (.verify (← getNat j "conn") (← getHex j "body"))
   | "get" => pure (.get (← getNat j "conn"))
+  | "list" => pure (.list (← getNat j "conn"))
   | o => throw s!"pv: unknown op {o}"
 
 def connOf : Op → Option Nat
   | .verify c _ => some c
   | .get c => some c
+  | .list c => some c
   | _ => none
 
 def runOps (C : Crypto) : Sys → List Op → List Json → List Json
